@@ -29,7 +29,7 @@ LEVEL_NOTE = (
     ">= 1/4 by construction. Bounds: orders <= 2 (quick) / 3 (thorough), words of <= 3 operators, <= 3 modes, <= ~500 states."
 )
 TECHNIQUE = "property-based testing (Hypothesis): operator-valued results vs matrix block diagonalisation on a truncated Fock space"
-BUDGET = {"quick": 480, "thorough": 12000}
+BUDGET = {"quick": 480, "thorough": 8000}
 SHRINK_SECONDS = {"quick": 40, "thorough": 300}
 RULE = (
     "case = (modes, rational frequencies + optional interaction, 1-3 perturbation words with rational coefficients, "
@@ -317,9 +317,19 @@ def check_case(case, enforce_all=False):
     dE = E[:, None] - E[None, :]
     S = S | (np.abs(dE) < 1e-12)  # exactly degenerate pairs are never coupled within reach: keep them
     try:
-        Uref, Href = refsolve.solve_hermitian(E, {(1,): T}, S, [(K,)], exact=False, selfcheck=False)
+        # extended precision: the reference multiplies by H_0 explicitly, and with denominators down to 1/32 and
+        # amplitudes ~ n^(3/2) plain doubles leave ~1e-8 of rounding noise at third order
+        if K >= 3:
+            refsolve.FLOAT_DTYPE[0] = np.clongdouble
+            Uref, Href = refsolve.solve_hermitian(E.astype(np.longdouble), {(1,): T.astype(np.clongdouble)}, S, [(K,)], exact=False, selfcheck=False)
+        else:
+            Uref, Href = refsolve.solve_hermitian(E, {(1,): T}, S, [(K,)], exact=False, selfcheck=False)
+        Uref = {n_: v.astype(complex) for n_, v in Uref.items()}
+        Href = {n_: v.astype(complex) for n_, v in Href.items()}
     except Exception as exc:  # noqa: BLE001
         raise AssertionError(f"reference solver failed: {exc}") from exc
+    finally:
+        refsolve.FLOAT_DTYPE[0] = complex
     margin = K * b["degree"] + 1
     safe = space.safe(margin)
     if len(safe) == 0:
